@@ -15,7 +15,9 @@ vars == <<cfg, phase>>
 Sets ==
   { <<"Debug">>, <<"Clone">>, <<"Clone", "Copy">>, <<"Copy">>, <<"PartialEq">>, <<"PartialEq", "Eq">>, <<"Eq">>,
     <<"PartialEq", "PartialOrd">>, <<"PartialEq", "Eq", "PartialOrd", "Ord">>, <<"PartialEq", "Eq", "Ord">>,
-    <<"Hash">>, <<"Default">>, <<"Into">> }
+    <<"Hash">>, <<"Default">>, <<"Into">>,
+    \* several handlers at once, in an attribute order that differs from the handler order (emission order)
+    <<"Hash", "Ord", "PartialOrd", "Eq", "PartialEq", "Copy", "Clone", "Debug">> }
 
 \* the trait of a set whose bound mode is varied: the one whose handler writes the where-clause last in the
 \* set (companions cannot carry a bound of their own)
@@ -25,8 +27,9 @@ ModedTrait(ts) ==
     [] ts = <<"PartialEq", "Eq", "Ord">> -> "Ord" [] OTHER -> ts[1]
 
 MCTypeOptSet(k) ==
-  { [DefOpts EXCEPT !.traits = ts, !.gen = g, !.bounds = (ModedTrait(ts) :> m) @@ ("-" :> "auto")] :
-      ts \in TraitSetsC12 \ {<<"Into">>}, g \in GenDescs, m \in Modes }
+  { o \in { [DefOpts EXCEPT !.traits = ts, !.gen = g, !.bounds = (ModedTrait(ts) :> m) @@ ("-" :> "auto"), !.newfn = nf] :
+              ts \in TraitSetsC12 \ {<<"Into">>}, g \in GenDescs, m \in Modes, nf \in BOOLEAN } :
+      o.newfn => o.traits = <<"Default">> }
   \cup
   \* Into: one or two targets, each with a bound mode of its own
   { [DefOpts EXCEPT !.traits = <<"Into">>, !.gen = g, !.targets = <<"A">>, !.bounds = ("Into:A" :> m) @@ ("-" :> "auto")] :
